@@ -490,14 +490,21 @@ def oracleC05Vi (hasCompleter : Bool) (histNonEmpty : Bool) (o : ImplObs) : OVer
       let st := { st with prevIns := cb.mode != "vc" }
       match cb.keys with
       | [key] =>
-        -- Alt-<key> in insert mode: the same key is reported again as a command-mode key
-        -- (a sub-loop does not swallow it: it ends there)
+        -- Alt-<key> in insert mode: the same key is reported again as a command-mode key; whether a
+        -- sub-loop swallows it is decided at that second report (Alt-X inside a search is one more
+        -- Backspace of the search: D47)
         if cb.mode != "vc" && (match key.code with | .char _ => key.mods == 4 | _ => false) then
-          go (k + 1) (if st.sub != 0 then { st.lose with sub := 0 } else st) rest
+          go (k + 1) (if st.sub != 0 then st.lose else st) rest
         else
-        -- the sub-loops swallow their own keys; any other key ends them and is then executed
+        -- the sub-loops swallow their own keys; any other key ends them and is then executed.  In vi
+        -- command mode the keys a search goes on with are `X` (Kill(BackwardChar)), C-r, C-s and the
+        -- abort C-g; a completion only takes the abort
+        let abortVc : Bool := key == ⟨.char 'G', 8⟩
         let consumed : Bool :=
-          (st.sub == 1 && searchConsumes cb.mode key) || (st.sub == 2 && completionConsumes cb.mode key)
+          if cb.mode == "vc" then
+            (st.sub == 1 && (key == ⟨.char 'X', 0⟩ || key == ⟨.char 'R', 8⟩ || key == ⟨.char 'S', 8⟩ || abortVc))
+              || (st.sub == 2 && abortVc)
+          else (st.sub == 1 && searchConsumes cb.mode key) || (st.sub == 2 && completionConsumes cb.mode key)
         if consumed then go (k + 1) st.lose rest
         else
         let st := if st.sub != 0 then { st.lose with sub := 0 } else st
@@ -587,7 +594,10 @@ def oracleC05 (hasCompleter : Bool) (histNonEmpty : Bool) (o : ImplObs) : OVerdi
           go (k + 1) seen saved none rest
         else if searchConsumes cb.mode key && (key != ⟨.backspace, 0⟩ || cb.positive) then
           go (k + 1) seen none sub rest
-        else go (k + 1) seen none none rest      -- the search is accepted: one group; then the key runs
+        else
+          -- the search is accepted: one group; then the key runs — a Tab starts a completion loop
+          let startsCompletion : Bool := (key == ⟨.tab, 0⟩ || key == ⟨.char 'I', 8⟩) && hasCompleter
+          go (k + 1) seen none (if startsCompletion then some none else none) rest
       | [_], some none =>
         -- possibly inside the completion loop, and the loop consumes this key
         go (k + 1) seen none sub rest
